@@ -293,7 +293,7 @@ def fixOne (ss : List Stmt) (i : Nat) (s : Stmt) : Outcome Stmt :=
     | some b =>
       let short := s.row.isShortBranch
       let hint := if short then 2 else 4
-      if b < i then
+      if b ≤ i then
         let len := 1 + sumSize ss b (i + 1)
         if short ∧ len > 129 then .diag
         else match numericOfInt ((if short then (0x101 : Int) else 0x10001) - len) (some hint) .none with
